@@ -7,7 +7,7 @@ ID = "C14"
 LEAN_MODULE = "Ucfg.Props.C14"
 LEVEL_TEXT = 'Every error the model raises is typed with Reason and Class: per site (conversion, getter, path get/set, validation) and LIFTED to the whole typed unpacker (unpack_error_typed / unpack_failure_is_ucfg_error: for every target type without interface{} - structs with any tags incl. inline, pointers, slices, arrays, maps, regexp, Config - every pre-filled value, option set and configuration, an error returned by Unpack is a ucfg.Error; induction over the fuel with a claim per model function); path and source in the message are decided on the implementation with exactly one injected fault confirmed by the model (metadata is not modelled: partial).'
 CORRESPONDENCE = "Err values of Unpack/Path/Conv models ~ errors returned by NewFrom / Merge / Unpack / getters / Remove / Has / CountField"
-RULE = ("Plus: one *Config of defaults merged as it is into the root and, through a handle, into an object below it, a fault in a setting that came from it (shared-defaults). Main stream: valid (configuration, target type) pairs from C04's generators with exactly ONE fault injected at a random setting at any depth "
+RULE = ("Plus: one unresolvable reference at a random depth below objects and lists of a configuration read as a whole into interface{} values - the error names the setting that holds the reference (D61). Plus: one *Config of defaults merged as it is into the root and, through a handle, into an object below it, a fault in a setting that came from it (shared-defaults). Main stream: valid (configuration, target type) pairs from C04's generators with exactly ONE fault injected at a random setting at any depth "
         "(inside lists, maps, pointers, inline fields): wrong kind, failed conversion, out of range, failed validator, wrong list "
         "length, unparsable duration/regexp, a primitive where an object is required; with and without MetaData(source); in a third of the "
         "cases one list of the configuration is grown to its final form by a later Merge (AppendValues, PrependValues, or a longer list "
@@ -24,6 +24,10 @@ def normalize_result(case, res):
         if isinstance(res, dict) and ("panic" in res or "fatal" in res or "harness" in res):
             return res
         return {"unmodelled": True}
+    if case.get("k") == "eval" and isinstance(res, dict) and isinstance(res.get("reads"), list):
+        # the path an error names is decided by the expectation (`errpath`), the model's errors carry none
+        return dict(res, reads=[({"err": {k: v for k, v in r["err"].items() if k != "path"}} if isinstance(r, dict) and isinstance(r.get("err"), dict) else r)
+                                for r in res["reads"]])
     return TG.normalize_unpack_result(case, res)
 
 
@@ -120,6 +124,7 @@ def gen(rng, tier):
         yield c
     yield from gen_api_errors(rng.fork("api"), n // 5)
     yield from gen_unpackers(rng.fork("unpackers"), n // 5)
+    yield from gen_nested_ref_faults(rng.fork("nested-ref"), n // 10)
     yield from gen_shared_defaults(rng.fork("shared-defaults"), n // 20)
     yield from gen_via_child(rng.fork("via-child"), n // 10)
 
@@ -326,6 +331,38 @@ def gen_api_errors(rng, n):
         yield {"k": "eval", "from": M(settings), "opts": [opt("PathSep", "."), opt("VarExp")], "merges": [],
                "ropts": [opt("PathSep", "."), opt("VarExp")], "reads": reads, "repeat": 1, "apiErrors": True,
                "_tag": "api-errors", "_nt": True, "_sig": "api|" + ",".join(sorted(set(r["r"] for r in reads)))}
+
+
+def gen_nested_ref_faults(rng, n):
+    """one unresolvable reference somewhere below objects and lists, read by a whole-config Unpack into interface{} values:
+    the error names the setting that holds the reference (D61), not the top-level key it lies below"""
+    vo = [opt("PathSep", "."), opt("VarExp")]
+    for _ in range(n):
+        top = rng.pick(["a", "srv", "out"])
+        path = [top]
+        def build(depth):
+            r = rng.below(3)
+            if depth <= 0:
+                return S(rng.pick(["${nope}", "x-${nope}", "${nope.deeper}"]))
+            if r == 0:
+                k = rng.pick(["b", "c", "d"])
+                path.append(k)
+                return M(rng.shuffle([(k, build(depth - 1)), ("ok", U(1))]))
+            if r == 1:
+                pos = rng.below(2)
+                path.append(str(pos))
+                xs = [U(1), S("v")]
+                xs[pos] = build(depth - 1)
+                return A(xs)
+            k = rng.pick(["e", "f"])
+            path.append(k)
+            return M([(k, build(depth - 1))])
+        val = build(1 + rng.below(3))
+        full = ".".join(path)
+        frm = M(rng.shuffle([(top, val), ("plain", S("p")), ("n", U(2))]))
+        yield {"k": "eval", "from": frm, "opts": vo, "merges": [], "ropts": vo, "reads": [{"r": "view", "path": True}],
+               "expect": [{"errpath": full}], "repeat": 1, "_tag": "fault/nested-ref-generic", "_nt": True,
+               "_sig": "nestedref|%d|%s" % (len(path), "".join("i" if p_.isdigit() else "n" for p_ in path))}
 
 
 def oracle(case, impl, model):
